@@ -10,7 +10,7 @@ package main
 // text is rebuilt from the model's fields wherever the text does not print a
 // node); for an accepted bundle the template Registry.Template returns for
 // every name, every message's id and placeholder names, and the ES6 import
-// block of every file.
+// text of every file (Model/JsGen.v run on the file as Model/Compile.v's Add left it).
 
 import (
 	"fmt"
@@ -20,6 +20,7 @@ import (
 	"strings"
 
 	"github.com/robfig/soy/ast"
+	"github.com/robfig/soy/data"
 	"github.com/robfig/soy/parse"
 	"github.com/robfig/soy/template"
 	"soyverif/internal/hx"
@@ -43,7 +44,10 @@ func isNilNode(n ast.Node) bool {
 }
 
 // c13FileSexp parses one file on its own (a fresh tree: Registry.Add rewrites the tree it is given).
-func c13FileSexp(f srcFile) (s string, ok bool) {
+// The value of every global is filled in beforehand: Model/Compile.v keeps the
+// values SetGlobals stores in a side table and never reads this field, but the
+// generator model (Model/JsGen.v) prints it.
+func c13FileSexp(f srcFile, globals data.Map) (s string, ok bool) {
 	defer func() {
 		if r := recover(); r != nil {
 			s, ok = "", false
@@ -56,6 +60,13 @@ func c13FileSexp(f srcFile) (s string, ok bool) {
 	ids := newIDTable()
 	var nodes, strs []string
 	for _, n := range tree.Body {
+		c13WalkAll(n, func(x ast.Node) {
+			if g, isG := x.(*ast.GlobalNode); isG {
+				if v, def := globals[g.Name]; def {
+					g.Value = v
+				}
+			}
+		})
 		nodes = append(nodes, nodeSexp(n, ids))
 		c13WalkAll(n, func(x ast.Node) {
 			switch x.(type) {
@@ -96,7 +107,7 @@ type c13View struct {
 	Err     string
 	Lookup  map[string]string // name -> file:pos
 	Msgs    []string          // per template in registry order: "name id [names] id [names] ..."
-	Imports []string          // per file in insertion order: "file ok <block>" | "file err"
+	Imports []string          // per file in insertion order: "file ok <ES6 text>" | "file err" | "file skip"
 }
 
 func c13GoView(c *c13Case, perm []int) c13View {
@@ -133,11 +144,7 @@ func c13GoView(c *c13Case, perm []int) c13View {
 			v.Imports = append(v.Imports, f.Name+" err")
 			continue
 		}
-		i := strings.Index(js, "// This file was automatically generated from")
-		if i < 0 {
-			i = 0
-		}
-		v.Imports = append(v.Imports, f.Name+" ok "+js[:i])
+		v.Imports = append(v.Imports, f.Name+" ok "+js)
 	}
 	return v
 }
@@ -201,10 +208,13 @@ func c13ModelView(r []string) (c13View, []string, string) {
 		}
 		for k := t.n(); k > 0; k-- {
 			file, st, x := t.s(), t.raw(), t.s()
-			if st == "ok" {
+			switch st {
+			case "ok":
 				v.Imports = append(v.Imports, file+" ok "+x)
-			} else {
+			case "err":
 				v.Imports = append(v.Imports, file+" err")
+			default: // outofmodel / fuel / crash: the generator model does not cover the file
+				v.Imports = append(v.Imports, file+" skip "+st)
 			}
 		}
 		return v, nil, ""
@@ -304,9 +314,19 @@ func c13Model(e *env, c *c13Case, orders [][]int, first *c13Obs, reg *template.R
 	if e.m == nil {
 		return
 	}
+	globals := data.Map{}
+	for _, gs := range c.Globals {
+		if m, err := c13GlobalsMap(gs); err == nil {
+			for k, v := range m {
+				if _, dup := globals[k]; !dup {
+					globals[k] = v
+				}
+			}
+		}
+	}
 	fileSexps := make([]string, len(c.Files))
 	for i, f := range c.Files {
-		s, ok := c13FileSexp(f)
+		s, ok := c13FileSexp(f, globals)
 		if !ok {
 			e.res.Histogram["model:skipped(parser panic)"]++
 			return
@@ -318,14 +338,20 @@ func c13Model(e *env, c *c13Case, orders [][]int, first *c13Obs, reg *template.R
 	for k := 0; k < 3 && len(orders) > 1; k++ {
 		sel = append(sel, orders[1+e.rng.Intn(len(orders)-1)])
 	}
-	for _, p := range sel {
+	for pi, p := range sel {
 		bs, ok := c13BundleSexp(c, p, fileSexps)
 		if !ok {
 			e.res.Histogram["model:skipped(globals)"]++
 			return
 		}
 		gv := c13GoView(c, p)
-		resp := e.m.Batch([]string{"c13 #0 " + bs, "c13 #1 " + bs})
+		// the JavaScript of the files is generated by the model for the identity order only
+		// (the other orders hand the same files to the generator: C13_same_js_inputs)
+		v0, v1 := "#0", "#1"
+		if pi > 0 {
+			v0, v1 = "#4", "#5"
+		}
+		resp := e.m.Batch([]string{"c13 " + v0 + " " + bs, "c13 " + v1 + " " + bs})
 		e.res.Histogram["model:compared"]++
 		cs := c13Replay{Case: *c, Order: p}
 		for vi, r := range resp {
@@ -363,11 +389,21 @@ func c13Model(e *env, c *c13Case, orders [][]int, first *c13Obs, reg *template.R
 					Expected: hx.Q(x), Observed: hx.Q(y)}, "")
 				return
 			}
-			if strings.Join(mv.Imports, "\x00") != strings.Join(gv.Imports, "\x00") {
-				x, y := c13Around(strings.Join(mv.Imports, "\n"), strings.Join(gv.Imports, "\n"))
-				e.res.Fail(hx.Violation{Kind: "mismatch", What: "ES6 import block differs from the model (" + tag + ")", Case: cs,
-					Expected: hx.Q(x), Observed: hx.Q(y)}, "")
-				return
+			for fi := range mv.Imports {
+				if fi >= len(gv.Imports) {
+					break
+				}
+				if strings.Contains(mv.Imports[fi], " skip ") {
+					e.res.Histogram["model:js:"+mv.Imports[fi][strings.Index(mv.Imports[fi], " skip ")+6:]]++
+					continue
+				}
+				e.res.Histogram["model:js:compared"]++
+				if mv.Imports[fi] != gv.Imports[fi] {
+					x, y := c13Around(mv.Imports[fi], gv.Imports[fi])
+					e.res.Fail(hx.Violation{Kind: "mismatch", What: "the generated ES6 JavaScript differs from the generator model run on the compile model's file (" + tag + ")", Case: cs,
+						Expected: hx.Q(x), Observed: hx.Q(y)}, "")
+					return
+				}
 			}
 		}
 	}
